@@ -242,7 +242,7 @@ func runC07(c *Ctx) {
 				arg := call.Common().Args[2]
 				fromVars, fromQuery := false, false
 				for _, l := range Origins(arg) {
-					if strings.Contains(l.Path, "."+restVarsFld.Name()) || l.Kind == "load" && l.Field != nil && l.Field.Name() == "value" {
+					if strings.Contains(l.Path, "."+N(restVarsFld)) || l.Kind == "load" && l.Field != nil && N(l.Field) == "value" {
 						fromVars = true
 					}
 					if l.Kind == "load" && strings.HasSuffix(l.Path, "[]") && !strings.Contains(l.Path, "restVars") {
@@ -365,13 +365,13 @@ func runC07(c *Ctx) {
 	okRaw := false
 	nRawStores := 0
 	for _, w := range FieldWrites(handleFn) {
-		if w.Field.Name() != "RawPath" || !isPtrTo(w.Base.Type(), "net/url", "URL") {
+		if N(w.Field) != "RawPath" || !isPtrTo(w.Base.Type(), "net/url", "URL") {
 			continue
 		}
 		nRawStores++
 		fromBuilder := func(v ssa.Value) bool {
 			for _, l := range Origins(v) {
-				if l.Kind == "call" && l.Call.Common().IsInvoke() && l.Call.Common().Method.Name() == "requestLine" && l.Index == 0 && len(l.Ops) == 0 {
+				if l.Kind == "call" && l.Call.Common().IsInvoke() && N(l.Call.Common().Method) == "requestLine" && l.Index == 0 && len(l.Ops) == 0 {
 					return true
 				}
 			}
@@ -381,7 +381,7 @@ func runC07(c *Ctx) {
 			okRaw = true
 		}
 		// or: the value is a re-load of URL.Path, which a dominating store filled from the builder
-		if lf := LoadedField(w.Store.Val); lf != nil && lf.Name() == "Path" && lf.Pkg() != nil && lf.Pkg().Path() == "net/url" {
+		if lf := LoadedField(w.Store.Val); lf != nil && N(lf) == "Path" && lf.Pkg() != nil && lf.Pkg().Path() == "net/url" {
 			for _, w2 := range FieldWrites(handleFn) {
 				if w2.Field == lf && instrBefore(w2.Store, w.Store) && fromBuilder(w2.Store.Val) {
 					okRaw = true
